@@ -266,7 +266,7 @@ func (x *Exec) rootOf(p Val) Term {
 // Keyed by a rendering of the lvalue; kept per State in heap map under "!meta:" keys is not possible
 // (Terms only), so we keep it in the frame-independent side map on State.
 func (x *Exec) rememberMeta(st *State, l *LVal, v Val) {
-	if v.Clo == nil && v.World == 0 && v.Dyn == nil && v.Fn == nil && v.LV == nil {
+	if v.Clo == nil && v.World == 0 && v.Dyn == nil && v.Fn == nil && v.LV == nil && v.Commit == nil {
 		if st.meta != nil {
 			delete(st.meta, lvKey(l))
 		}
@@ -309,7 +309,7 @@ func (x *Exec) unop(st *State, fr *Frame, in *ssa.UnOp) Val {
 		res := Val{T: x.define(st, "ld", t), Typ: in.Type()}
 		if st.meta != nil {
 			if m, ok := st.meta[lvKey(l)]; ok {
-				res.Clo, res.World, res.Dyn, res.Fn, res.LV, res.Pfx = m.Clo, m.World, m.Dyn, m.Fn, m.LV, m.Pfx
+				res.Clo, res.World, res.Dyn, res.Fn, res.LV, res.Pfx, res.Commit = m.Clo, m.World, m.Dyn, m.Fn, m.LV, m.Pfx, m.Commit
 			}
 		}
 		x.assumeTyped(st, res)
